@@ -122,6 +122,15 @@ def gen_cases(tier, rng):
         cases.append('G:a:f=0 arg:%s:b0:init=0 G:c:f=0 arg:y:i0: G:b:f=0 arg:x:b1:init=0 S:%s:f=0 arg:q:b2:init=0 argv:- exp:setup mut:shared-key' % (k0, k1))
     # ... and distinct keys are accepted
     cases.append('G:a:f=0 arg:g:b0:init=0 G:b:f=0 arg:x:b1:init=0 S:h:f=0 arg:q:b2:init=0 argv:2d68,2d71,2d67 exp:b0=1;b1=0;b2=1 mut:none')
+    # members that are value handlers (Groups::getArgValueHandler): the same key in two members is refused whoever
+    # makes the second definition; evaluation as for any member
+    for o in ('0,1', '1,0'):
+        for t0, t1 in (('GV', 'G'), ('G', 'GV'), ('GV', 'GV')):
+            for k0, k1 in (('n', 'n'), ('n,number', 'number'), ('number', 'x,number'), ('-', '-')):
+                cases.append('%s:a:f=0 arg:%s:i0: %s:b:f=0 arg:%s:i1: argv:- exp:setup mut:shared-key order:%s' % (t0, k0, t1, k1, o))
+    cases.append('GV:a:f=0 arg:n:i0: G:b:f=0 arg:x:b0:init=0 GV:c:f=0 arg:l:vi0:multi argv:2d78,2d6e,34,2d6c,31,32 exp:b0=1;i0=4;vi0=[1,2] mut:none')
+    cases.append('GV:a:f=128 arg:number:i0: G:b:f=0 arg:name:s0: argv:2d2d6e756d,34 exp:reject mut:unknown-long')
+    cases.append('GV:a:f=0 arg:number:i0: G:b:f=0 arg:x:b0:init=0 argv:2d2d6e756d,34 exp:b0=0;i0=4 mut:none')
     # the same key in two members with the flags of the Groups singleton that are passed on to the members
     for gs in (0x20000, 0x8000, 0x28000):
         for nm in (2, 3):
@@ -152,6 +161,7 @@ def gen_cases(tier, rng):
     cases.append('G:a:f=0 arg:l:b0:init=0 arg:m:b1:init=0 con:one_of:l;m G:b:f=0 arg:x:b2:init=0 argv:- exp:reject mut:empty-line')
     cases.append('G:a:f=0 arg:x:b0:init=0 G:b:f=0 arg:l:b1:init=0 arg:m:b2:init=0 con:all_of:l;m argv:- exp:reject mut:empty-line')
     cases.append('G:a:f=0 arg:x:b0:init=0 G:b:f=0 arg:y:i0: argv:- exp:b0=0;i0=0 mut:none')
+    n += len(cases)
     guard = 0
     while len(cases) < n and guard < n * 30:
         guard += 1
@@ -246,7 +256,7 @@ def _abbrev_region(case):
     of a member, or is a prefix of long keys of two different members, or of two keys at all"""
     members = []
     for t in case.split(' '):
-        if t.startswith('G:'):
+        if t.startswith('G:') or t.startswith('GV:'):
             members.append([])
         elif t.startswith('arg:') and members:
             spec = t.split(':')[1]
@@ -272,7 +282,7 @@ def _abbrev_region(case):
 
 
 def classify(case, ir, mr):
-    if (case.startswith('G:') or case.startswith('GS:')) and _abbrev_region(case):
+    if (case.startswith('G:') or case.startswith('GS:') or case.startswith('GV:')) and _abbrev_region(case):
         return 'group-abbrev-per-member'
     for t in case.split(' '):
         if t.startswith('mut:'):
